@@ -416,6 +416,25 @@ Definition run_node (c : case) : option (list (kind * tensor)) :=
         then one (kind_of (in_dt x)) (scatter_elements red (attr_int c "axis" 0) (in_t x) (in_t i) (in_t u)) else None
     | _, _ => None
     end
+  else if String.eqb op "MaxPool" then
+    match c_inputs c, attr_ints c "kernel_shape" with
+    | [Some x], Some [kh; kw] =>
+        let st := match attr_ints c "strides" with Some v => v | None => [1; 1]%Z end in
+        let pd := match attr_ints c "pads" with Some v => v | None => [0; 0; 0; 0]%Z end in
+        let dl := match attr_ints c "dilations" with Some v => v | None => [1; 1]%Z end in
+        match st, pd with
+        | [sh; sw], [pt; pl; pb; pr] =>
+            if is_float (in_dt x) && forallb (fun v => (0 <=? v)%Z) [kh; kw; sh; sw; pt; pl; pb; pr]
+               && forallb (fun v => (v =? 1)%Z) dl && (attr_int c "ceil_mode" 0 =? 0)%Z
+               && (attr_int c "storage_order" 0 =? 0)%Z && String.eqb (attr_str c "auto_pad" "NOTSET") "NOTSET"
+               && (pt <? kh)%Z && (pb <? kh)%Z && (pl <? kw)%Z && (pr <? kw)%Z
+            then one KFloat (maxpool2d (Z.to_nat kh) (Z.to_nat kw) (Z.to_nat sh) (Z.to_nat sw)
+                                       (Z.to_nat pt) (Z.to_nat pl) (Z.to_nat pb) (Z.to_nat pr) (in_t x))
+            else None
+        | _, _ => None
+        end
+    | _, _ => None
+    end
   else if String.eqb op "ScatterND" then
     match c_inputs c, scatter_red_of (attr_str c "reduction" "none") with
     | [Some x; Some i; Some u], Some red =>
@@ -488,8 +507,19 @@ Definition show (c : case) := run_ref c.
 From Coq Require Import Uint63.
 Definition zz (i : int) : Z :=
   let z := Uint63.to_Z i in if Z.even z then (z / 2)%Z else (- ((z + 1) / 2))%Z.
-Definition mkInW (dt : dtype) (dims data : list int) : input := mkIn dt (map zz dims) (map zz data).
-Definition OTW (k : kind) (dims data : list int) : otensor := OT k (map zz dims) (map zz data).
+(* value lists: W = one literal per value; P n = seven zigzag bytes per literal (little endian),
+   n values in total (used when every encoded value is < 256; fewer literals to parse) *)
+Inductive wire := W (l : list int) | P (n : int) (l : list int).
+Definition zzZ (z : Z) : Z := if Z.even z then (z / 2)%Z else (- ((z + 1) / 2))%Z.
+Fixpoint unpack (k : nat) (z : Z) : list Z :=
+  match k with 0 => [] | S k' => zzZ (z mod 256) :: unpack k' (z / 256) end.
+Definition wire_list (w : wire) : list Z :=
+  match w with
+  | W l => map zz l
+  | P n l => firstn (Z.to_nat (Uint63.to_Z n)) (flat_map (fun i => unpack 7 (Uint63.to_Z i)) l)
+  end.
+Definition mkInW (dt : dtype) (dims : list int) (data : wire) : input := mkIn dt (map zz dims) (wire_list data).
+Definition OTW (k : kind) (dims : list int) (data : wire) : otensor := OT k (map zz dims) (wire_list data).
 Definition AIntW (v : int) : attr := AInt (zz v).
 Definition AIntsW (v : list int) : attr := AInts (map zz v).
 Definition AFloatW (v : int) : attr := AFloat (zz v).
